@@ -35,6 +35,8 @@ SHAPES = [
     (((((((( 0, 1.0), (1, 2.0)), 10.0),), 5.0),), 3.0), (2, 8.0)),             # chain of two single-child nodes
     ((((0, 0.5), (1, 0.5), (2, 0.5)), 1.0), (3, 2.0), (4, 0.25)),
     ((((((3, 1.0), (1, 2.0)), 0.5), (0, 3.0)), 1.0), (((2, 1.0),), 2.0)),
+    ((((0, 1.0),), 2.0), (1, 3.0), (2, 4.0)),                                  # single-child node below a multifurcation
+    (((((( 0, 1.0), (1, 0.5)), 0.25),), 1.5), (2, 3.0), (((((3, 0.5),), 0.75),), 0.125), (4, 2.0)),   # 4 children, chains below
 ]
 
 
